@@ -218,7 +218,7 @@ SRC_TIE_TEXT = {
     'Meta': 'check_int and the encode/decode/check methods of the numeric meta specs of meta.py',
     'Vlq': 'encode_variable_int (meta.py) and read_variable_int (midifiles.py)',
     'Tracks': '_to_abstime, _to_reltime, fix_end_of_track and merge_tracks of tracks.py',
-    'Writer': 'write_track and write_chunk of midifiles.py (both loops, running status, chunk header)',
+    'Writer': 'MidiFile.save/_save, write_track and write_chunk of midifiles.py (type-0 rule, header, both loops, running status, chunk header)',
 }
 SRC_TIE = {
     'C01': ['Codec'], 'C02': ['Codec'], 'C03': ['Codec'],
